@@ -67,8 +67,16 @@ func newVerdictWorld(c *ctx, kind string, hid int) *verdictWorld {
 				return a.token
 			}
 			h1, h2, ho = mk(key), mk(key), mk(other)
-			iss := type1.NewBasicPrivateIssuer(key)
-			verify = iss.Verify
+			iss := type1.NewBasicPrivateIssuer(freshVoprf(suite, key))
+			verify = func(tok tokens.Token) error {
+				// ... and every presentation is also made to an issuer constructed this very moment (its first call)
+				errFresh := type1.NewBasicPrivateIssuer(freshVoprf(suite, key)).Verify(tok)
+				err := iss.Verify(tok)
+				if (errFresh == nil) != (err == nil) {
+					panic(fmt.Sprintf("a freshly constructed issuer decides otherwise (fresh: %v, long-lived: %v)", errFresh, err))
+				}
+				return err
+			}
 		} else {
 			suite, key, other = oprf.SuiteRistretto255, ristrettoKey(c.seed, "k1"), ristrettoKey(c.seed, "k2")
 			mk := func(k *oprf.PrivateKey) tokens.Token {
@@ -79,8 +87,15 @@ func newVerdictWorld(c *ctx, kind string, hid int) *verdictWorld {
 				return a.tokens[r.Intn(2)]
 			}
 			h1, h2, ho = mk(key), mk(key), mk(other)
-			iss := type5.NewBatchedPrivateIssuer(key)
-			verify = iss.Verify
+			iss := type5.NewBatchedPrivateIssuer(freshVoprf(suite, key))
+			verify = func(tok tokens.Token) error {
+				errFresh := type5.NewBatchedPrivateIssuer(freshVoprf(suite, key)).Verify(tok)
+				err := iss.Verify(tok)
+				if (errFresh == nil) != (err == nil) {
+					panic(fmt.Sprintf("a freshly constructed issuer decides otherwise (fresh: %v, long-lived: %v)", errFresh, err))
+				}
+				return err
+			}
 		}
 		vals := map[string]tokens.Token{"honest": h1, "honest2": h2, "other": ho}
 		t := tokCopy(h1)
